@@ -1,12 +1,18 @@
 package main
 
 import (
+	"encoding/binary"
 	"fmt"
+	"os"
+	"path/filepath"
+	"sort"
 	"strconv"
 	"strings"
 
 	"github.com/Chocapikk/pgread/pgdump"
 )
+
+// ---------------------------------------------------------------- relmap
 
 func relmapErr(err error) string {
 	m := err.Error()
@@ -17,8 +23,227 @@ func relmapErr(err error) string {
 		return "err:bad_magic"
 	case strings.HasPrefix(m, "invalid number of mappings"):
 		return "err:bad_count"
+	case strings.HasPrefix(m, "cannot read"):
+		return "err:read"
 	}
 	return "err:other"
+}
+
+func rmFields(rm *pgdump.RelMapFile) []kv {
+	maps := make([]string, len(rm.Mappings))
+	for i, m := range rm.Mappings {
+		maps[i] = fmt.Sprintf("%d:%d", m.OID, m.Filenode)
+	}
+	return []kv{{"magic", fmt.Sprint(rm.Magic)}, {"num", fmt.Sprint(rm.NumMappings)},
+		{"maps", cList(maps)}, {"crc", fmt.Sprint(rm.CRC)}}
+}
+
+// rmFile renders a RelMapFile returned by the Read* functions; the path is made relative to dir.
+func rmFile(rm *pgdump.RelMapFile, dir string) string {
+	p := "other:" + rm.Path
+	if rel, err := filepath.Rel(dir, rm.Path); err == nil {
+		parts := strings.Split(filepath.ToSlash(rel), "/")
+		switch {
+		case len(parts) == 2 && parts[0] == "global" && parts[1] == "pg_filenode.map":
+			p = "global"
+		case len(parts) == 3 && parts[0] == "base" && parts[2] == "pg_filenode.map":
+			p = "db:" + parts[1]
+		}
+	}
+	return cRec(append(rmFields(rm), kv{"isglobal", cBool(rm.IsGlobal)}, kv{"path", p})...)
+}
+
+// ---------------------------------------------------------------- scratch clusters
+
+var c20dirSeq int
+
+func c20dir() string {
+	c20dirSeq++
+	d := filepath.Join(os.Getenv("VERIF_TMP"), fmt.Sprintf("c20-%d", c20dirSeq))
+	os.RemoveAll(d)
+	if err := os.MkdirAll(filepath.Join(d, "global"), 0o755); err != nil {
+		panic("harness: " + err.Error())
+	}
+	return d
+}
+
+func mustWrite(path string, data []byte) {
+	if err := os.MkdirAll(filepath.Dir(path), 0o755); err != nil {
+		panic("harness: " + err.Error())
+	}
+	if err := os.WriteFile(path, data, 0o644); err != nil {
+		panic("harness: " + err.Error())
+	}
+}
+
+// heapFile lays rows (attribute data, natts columns, no NULLs) out as PostgreSQL heap pages:
+// 24-byte page header, line pointers growing up, MAXALIGNed tuples growing down, 24-byte tuple
+// headers with HEAP_XMIN_COMMITTED|HEAP_XMAX_INVALID.  Test scaffolding for the catalog files the
+// listing functions read through ParsePGDatabase / ParsePGClass (those parsers belong to C01/C02).
+func heapFile(rows [][]byte, natts int) []byte {
+	var out []byte
+	newPage := func() []byte {
+		p := make([]byte, 8192)
+		binary.LittleEndian.PutUint16(p[12:], 24)
+		binary.LittleEndian.PutUint16(p[14:], 8192)
+		binary.LittleEndian.PutUint16(p[16:], 8192)
+		binary.LittleEndian.PutUint16(p[18:], 8192|4)
+		return p
+	}
+	var page []byte
+	flush := func() {
+		if page != nil {
+			out = append(out, page...)
+			page = nil
+		}
+	}
+	for _, data := range rows {
+		tl := 24 + len(data)
+		al := (tl + 7) &^ 7
+		if page != nil {
+			lower := int(binary.LittleEndian.Uint16(page[12:]))
+			upper := int(binary.LittleEndian.Uint16(page[14:]))
+			if upper-al < lower+4 {
+				flush()
+			}
+		}
+		if page == nil {
+			page = newPage()
+		}
+		lower := int(binary.LittleEndian.Uint16(page[12:]))
+		upper := int(binary.LittleEndian.Uint16(page[14:])) - al
+		t := page[upper : upper+tl]
+		binary.LittleEndian.PutUint32(t[0:], 700) // xmin
+		binary.LittleEndian.PutUint16(t[18:], uint16(natts))
+		binary.LittleEndian.PutUint16(t[20:], 0x0900)
+		t[22] = 24
+		copy(t[24:], data)
+		binary.LittleEndian.PutUint32(page[lower:], uint32(upper)|1<<15|uint32(tl)<<17)
+		binary.LittleEndian.PutUint16(page[12:], uint16(lower+4))
+		binary.LittleEndian.PutUint16(page[14:], uint16(upper))
+	}
+	flush()
+	return out
+}
+
+func nameData(s string) []byte {
+	b := make([]byte, 64)
+	copy(b, s)
+	return b
+}
+
+// "oid:hexname,…" -> pg_database heap file (oid, datname, then the columns the tool does not read)
+func pgDatabaseFile(arg string) []byte {
+	var rows [][]byte
+	if arg != "-" && arg != "" {
+		for _, e := range strings.Split(arg, ",") {
+			p := strings.SplitN(e, ":", 2)
+			oid, _ := strconv.ParseUint(p[0], 10, 32)
+			row := make([]byte, 4, 4+64+24)
+			binary.LittleEndian.PutUint32(row, uint32(oid))
+			row = append(row, nameData(string(unhex(p[1])))...)
+			row = append(row, 10, 0, 0, 0, 6, 0, 0, 0, 'c', 0, 1, 0xff, 0xff, 0xff, 0xff, 0, 0xd6, 2, 0, 0, 1, 0, 0, 0)
+			rows = append(rows, row)
+		}
+	}
+	return heapFile(rows, 14)
+}
+
+// "oid:filenode:hexname:hexkind,…" -> pg_class heap file (the 17 leading columns of schemaPGClass)
+func pgClassFile(arg string) []byte {
+	var rows [][]byte
+	if arg != "" {
+		for _, e := range strings.Split(arg, ",") {
+			p := strings.Split(e, ":")
+			oid, _ := strconv.ParseUint(p[0], 10, 32)
+			fn, _ := strconv.ParseUint(p[1], 10, 32)
+			row := make([]byte, 116)
+			binary.LittleEndian.PutUint32(row[0:], uint32(oid))
+			copy(row[4:68], nameData(string(unhex(p[2]))))
+			binary.LittleEndian.PutUint32(row[68:], 2200)  // relnamespace
+			binary.LittleEndian.PutUint32(row[80:], 10)    // relowner
+			binary.LittleEndian.PutUint32(row[88:], uint32(fn))
+			binary.LittleEndian.PutUint32(row[96:], 1)     // relpages
+			binary.LittleEndian.PutUint32(row[100:], 0x3f800000)
+			row[114] = 'p'
+			k := unhex(p[3])
+			if len(k) > 0 {
+				row[115] = k[0]
+			}
+			rows = append(rows, row)
+		}
+	}
+	return heapFile(rows, 33)
+}
+
+// buildSeqCluster materialises global/1262, base/<db>/1259 and the relation files.
+func buildSeqCluster(dbs, classes, files string) string {
+	d := c20dir()
+	if dbs != "!" {
+		mustWrite(filepath.Join(d, "global", "1262"), pgDatabaseFile(dbs))
+	}
+	if classes != "-" && classes != "" {
+		for _, e := range strings.Split(classes, ";") {
+			p := strings.SplitN(e, "=", 2)
+			mustWrite(filepath.Join(d, "base", p[0], "1259"), pgClassFile(p[1]))
+		}
+	}
+	if files != "-" && files != "" {
+		for _, e := range strings.Split(files, ";") {
+			p := strings.SplitN(e, "=", 2)
+			mustWrite(filepath.Join(d, "base", filepath.FromSlash(p[0])), unhex(p[1]))
+		}
+	}
+	return d
+}
+
+// ---------------------------------------------------------------- sequences
+
+func seqErr(err error) string {
+	m := err.Error()
+	switch {
+	case strings.HasPrefix(m, "sequence file too small"):
+		return "err:file_small"
+	case strings.HasPrefix(m, "invalid special pointer"):
+		return "err:bad_special"
+	case strings.HasPrefix(m, "not a sequence file"):
+		return "err:not_sequence"
+	case strings.HasPrefix(m, "no items on page"):
+		return "err:no_items"
+	case strings.HasPrefix(m, "invalid item pointer"):
+		return "err:bad_item"
+	case strings.HasPrefix(m, "tuple too small"):
+		return "err:tuple_small"
+	case strings.HasPrefix(m, "sequence data too short for modern format"):
+		return "err:modern_short"
+	case strings.HasPrefix(m, "sequence data too short"):
+		return "err:data_short"
+	case strings.HasPrefix(m, "database "):
+		return "err:not_found"
+	}
+	if os.IsNotExist(err) {
+		return "err:read"
+	}
+	return "err:other"
+}
+
+func seqObs(s *pgdump.SequenceData) string {
+	return cRec(kv{"last", fmt.Sprint(s.LastValue)}, kv{"called", cBool(s.IsCalled)})
+}
+
+func seqFull(s *pgdump.SequenceData) string {
+	return cRec(kv{"last", fmt.Sprint(s.LastValue)}, kv{"start", fmt.Sprint(s.StartValue)},
+		kv{"inc", fmt.Sprint(s.IncrementBy)}, kv{"max", fmt.Sprint(s.MaxValue)}, kv{"min", fmt.Sprint(s.MinValue)},
+		kv{"cache", fmt.Sprint(s.CacheValue)}, kv{"cycled", cBool(s.IsCycled)}, kv{"called", cBool(s.IsCalled)})
+}
+
+func seqLines(l []pgdump.SequenceData) string {
+	parts := make([]string, len(l))
+	for i, s := range l {
+		parts[i] = cRec(kv{"name", cStr(s.Name)}, kv{"oid", fmt.Sprint(s.OID)}, kv{"fn", fmt.Sprint(s.Filenode)},
+			kv{"last", fmt.Sprint(s.LastValue)}, kv{"called", cBool(s.IsCalled)})
+	}
+	return cList(parts)
 }
 
 func init() {
@@ -28,12 +253,7 @@ func init() {
 			if err != nil {
 				return relmapErr(err)
 			}
-			maps := make([]string, len(rm.Mappings))
-			for i, m := range rm.Mappings {
-				maps[i] = fmt.Sprintf("%d:%d", m.OID, m.Filenode)
-			}
-			return cRec(kv{"magic", fmt.Sprint(rm.Magic)}, kv{"num", fmt.Sprint(rm.NumMappings)},
-				kv{"maps", cList(maps)}, kv{"crc", fmt.Sprint(rm.CRC)})
+			return cRec(rmFields(rm)...)
 		})
 	})
 	register("RelMapLookup", func(a []string) string {
@@ -45,5 +265,118 @@ func init() {
 			key, _ := strconv.ParseUint(a[1], 10, 32)
 			return fmt.Sprintf("%d,%d", rm.GetFilenode(uint32(key)), rm.GetOID(uint32(key)))
 		})
+	})
+	register("GetEnhancedMappings", func(a []string) string {
+		return withBuf(a[0], "-", func(b []byte) string {
+			rm, err := pgdump.ParseRelMapFile(b)
+			if err != nil {
+				return relmapErr(err)
+			}
+			en := rm.GetEnhancedMappings()
+			parts := make([]string, len(en))
+			for i, e := range en {
+				parts[i] = fmt.Sprintf("%d:%d:%s", e.OID, e.Filenode, cStr(e.CatalogName))
+			}
+			return cList(parts)
+		})
+	})
+	// a[0] global map file hex | "!" (absent); a[1] pg_database rows | "!" (no global/1262); a[2] "oid=hex;…"
+	register("ReadAllRelMaps", func(a []string) string {
+		d := c20dir()
+		defer os.RemoveAll(d)
+		if a[0] != "!" {
+			mustWrite(filepath.Join(d, "global", "pg_filenode.map"), unhex(a[0]))
+		}
+		if a[1] != "!" {
+			mustWrite(filepath.Join(d, "global", "1262"), pgDatabaseFile(a[1]))
+		}
+		if a[2] != "-" {
+			for _, e := range strings.Split(a[2], ";") {
+				p := strings.SplitN(e, "=", 2)
+				mustWrite(filepath.Join(d, "base", p[0], "pg_filenode.map"), unhex(p[1]))
+			}
+		}
+		info, err := pgdump.ReadAllRelMaps(d)
+		if err != nil {
+			return relmapErr(err)
+		}
+		dbs := make([]string, len(info.Databases))
+		for i, m := range info.Databases {
+			dbs[i] = rmFile(m, d)
+		}
+		// the single-file readers must agree with the aggregate
+		if g, err := pgdump.ReadGlobalRelMap(d); err != nil || rmFile(g, d) != rmFile(info.Global, d) {
+			return "inconsistent:ReadGlobalRelMap"
+		}
+		for _, m := range info.Databases {
+			oid, _ := strconv.ParseUint(strings.TrimPrefix(filepath.Base(filepath.Dir(m.Path)), "db:"), 10, 32)
+			if one, err := pgdump.ReadDatabaseRelMap(d, uint32(oid)); err != nil || rmFile(one, d) != rmFile(m, d) {
+				return "inconsistent:ReadDatabaseRelMap"
+			}
+		}
+		return cRec(kv{"global", rmFile(info.Global, d)}, kv{"dbs", cList(dbs)})
+	})
+
+	register("ParseSequenceFile", func(a []string) string {
+		return withBuf(a[0], a[1], func(b []byte) string {
+			s, err := pgdump.ParseSequenceFile(b)
+			if err != nil {
+				return seqErr(err)
+			}
+			return seqObs(s)
+		})
+	})
+	register("ParseSequenceFileFull", func(a []string) string {
+		return withBuf(a[0], a[1], func(b []byte) string {
+			s, err := pgdump.ParseSequenceFile(b)
+			if err != nil {
+				return seqErr(err)
+			}
+			return seqFull(s)
+		})
+	})
+	register("parseSequenceTuple", func(a []string) string {
+		return withBuf(a[0], a[1], func(b []byte) string {
+			s, err := pgdump.VerifParseSequenceTuple(b)
+			if err != nil {
+				return seqErr(err)
+			}
+			return seqFull(s)
+		})
+	})
+	register("IsSequenceFile", func(a []string) string {
+		return withBuf(a[0], a[1], func(b []byte) string { return cBool(pgdump.IsSequenceFile(b)) })
+	})
+	// a[0] pg_database rows | "!"; a[1] database name (hex); a[2] pg_class rows per database; a[3] files
+	register("FindSequences", func(a []string) string {
+		d := buildSeqCluster(a[0], a[2], a[3])
+		defer os.RemoveAll(d)
+		l, err := pgdump.FindSequences(d, string(unhex(a[1])))
+		if err != nil {
+			return seqErr(err)
+		}
+		// "a deterministic function of the input": a second call must give the same listing
+		if l2, err2 := pgdump.FindSequences(d, string(unhex(a[1]))); err2 != nil || seqLines(l2) != seqLines(l) {
+			return "unstable:" + seqLines(l) + "|" + seqLines(l2)
+		}
+		return seqLines(l)
+	})
+	register("ScanAllSequences", func(a []string) string {
+		d := buildSeqCluster(a[0], a[1], a[2])
+		defer os.RemoveAll(d)
+		m, err := pgdump.ScanAllSequences(d)
+		if err != nil {
+			return seqErr(err)
+		}
+		keys := make([]string, 0, len(m))
+		for k := range m {
+			keys = append(keys, k)
+		}
+		sort.Strings(keys)
+		parts := make([]string, len(keys))
+		for i, k := range keys {
+			parts[i] = fmt.Sprintf("%x:%s", k, seqLines(m[k]))
+		}
+		return "m{" + strings.Join(parts, ",") + "}"
 	})
 }
